@@ -192,6 +192,7 @@ def step(ctx, i, op):
     """Execute op #i on SUT and model, compare outcomes.  Returns False when
     the op was skipped (its symbolic reference does not resolve)."""
     ctx.op_index = i
+    ctx.model_followed = False
     refs = O.resolve_refs(op, ctx.model)
     if refs is None:
         ctx.res.stats["ops_skipped"] += 1
@@ -209,6 +210,7 @@ def step(ctx, i, op):
             EXC_OWNERS.get(op["op"], ()),
         )
     expected, note = O.exec_model(ctx.model, op, refs, observed)
+    ctx.model_followed = True
     ctx.res.stats["ops"] += 1
     ctx.res.stats["op_" + op["op"]] += 1
     if op["op"] == "abandon_query":
@@ -254,7 +256,15 @@ def run_sequential(case, sweep, prop=None, after_op=None, final=None, pre_op=Non
             for i, op in enumerate(case["ops"]):
                 if pre_op is not None:
                     pre_op(ctx, i, op)
-                done = step(ctx, i, op)
+                try:
+                    done = step(ctx, i, op)
+                except Foreign:
+                    # the outcome differs in a clause another property owns: before the run stops,
+                    # this property's own clause about the request just served is still evaluated
+                    # (the model has already followed the request)
+                    if after_op is not None and getattr(ctx, "model_followed", False):
+                        after_op(ctx, i, op)
+                    raise
                 if done and after_op is not None:
                     after_op(ctx, i, op)
                 if sweep is not None and (i == n - 1 or (every and (i + 1) % every == 0 and not op.get("hold_sweep"))):
